@@ -2,17 +2,19 @@
    integer-token lines) -> output lines.  The Rust harness implements the same interface
    on top of the real crate. *)
 From Coq Require Import ZArith List.
-From KD Require Import Model.Values Model.Compare Model.Validate Model.Perm Model.Glob.
+From KD Require Import Model.Values Model.Compare Model.Validate Model.Perm Model.Glob Model.Broker Model.BrokerRun.
 Open Scope Z_scope.
 
 Definition fam_cmp : Z := 13.
 Definition fam_validate : Z := 2.
 Definition fam_scope : Z := 5.
 Definition fam_glob : Z := 14.
+Definition fam_hist : Z := 1.
 
 Definition run (fam : Z) (case : list (list Z)) : list (list Z) :=
   if fam =? fam_cmp then map run_cmp_line case
   else if fam =? fam_validate then map run_validate_line case
   else if fam =? fam_scope then map run_scope_line case
   else if fam =? fam_glob then run_glob_case case
+  else if fam =? fam_hist then run_hist_case case
   else [[-99]].
